@@ -797,3 +797,112 @@ func genSeq(t *rapid.T) SeqCase {
 var propSeq = vk.Register(&vk.Prop[SeqCase]{Property: property, Name: "cookiesequence", Gen: genSeq, Check: checkSeq, Quick: 6000, Thorough: 60000})
 
 func TestCookieSequence(t *testing.T) { propSeq.Run(t) }
+
+// ---- several redirects being prepared at the same time -----------------------------------------------------------------
+
+// FlightCase: 2-3 requests are in flight at once; each handler attaches its own messages with With() one by one and then
+// redirects. The interleaving is part of the case (yield points around every With and in front of To). Oracle: every
+// response carries exactly the flash cookie the same handler produces when it is served alone on a fresh app.
+type FlightCase struct {
+	Reqs  [][]Msg
+	Input []bool // request i also attaches its query as old input
+	Picks []int
+}
+
+func flightApp(c FlightCase, s *vk.Sched) *fiber.App {
+	app := fiber.New()
+	app.Get("/go/:i", func(ctx fiber.Ctx) error {
+		i := fiber.Params[int](ctx, "i")
+		r := ctx.Redirect()
+		for _, m := range c.Reqs[i] {
+			s.Yield("with<")
+			r.With(m.K, m.V, m.Level)
+			s.Yield("with>")
+		}
+		if c.Input[i] {
+			s.Yield("input<")
+			r.WithInput()
+		}
+		s.Yield("to<")
+		return r.To("/next")
+	})
+	return app
+}
+
+func flashOf(r *fasthttp.RequestCtx) string {
+	ck := fasthttp.AcquireCookie()
+	defer fasthttp.ReleaseCookie(ck)
+	ck.SetKey(fiber.FlashCookieName)
+	if r.Response.Header.Cookie(ck) {
+		return string(ck.Value())
+	}
+	return "<no flash cookie>"
+}
+
+func checkFlight(c FlightCase) vk.Verdict {
+	uri := func(i int) string { return fmt.Sprintf("/go/%d?who=client%d", i, i) }
+	solo := make([]string, len(c.Reqs))
+	for i := range c.Reqs {
+		solo[i] = flashOf(vk.Do(flightApp(c, nil), "GET", uri(i)))
+	}
+	s := vk.NewSched()
+	app := flightApp(c, s)
+	got := make([]string, len(c.Reqs))
+	for g := range c.Reqs {
+		g := g
+		s.Spawn(g, func() { got[g] = flashOf(vk.Do(app, "GET", uri(g))) })
+	}
+	pi := 0
+	res := s.Run(len(c.Reqs), func(ready []int) int {
+		p := 0
+		if pi < len(c.Picks) {
+			p = c.Picks[pi]
+		}
+		pi++
+		return p
+	})
+	desc := fmt.Sprintf("%d redirects prepared at the same time (messages %v, old input %v)\nschedule: %v", len(c.Reqs), c.Reqs, c.Input, s.Trace)
+	if len(res.Panics) > 0 {
+		return vk.Failf("%s\npanic: %s", desc, res.Panics[0])
+	}
+	if res.Deadlock {
+		return vk.Failf("%s\ndeadlock: %v", desc, res.Stuck)
+	}
+	for i := range c.Reqs {
+		if got[i] != solo[i] {
+			return vk.Failf("%s\nrequest %d: its response carries the flash cookie %q; served alone the same handler sends %q", desc, i, got[i], solo[i])
+		}
+	}
+	overlap, open := false, 0
+	for _, ev := range s.Trace {
+		switch {
+		case strings.HasSuffix(ev, "@with>"):
+			open++
+			if open > 1 {
+				overlap = true
+			}
+		case strings.HasSuffix(ev, ":done"):
+			open = 0
+		}
+	}
+	return vk.Verdict{NonTrivial: overlap, Classes: []string{fmt.Sprintf("in-flight:%d", len(c.Reqs))}}
+}
+
+var propFlight = vk.Register(&vk.Prop[FlightCase]{Property: property, Name: "inflight", Check: checkFlight, Quick: 1500, Thorough: 8000,
+	Gen: func(t *rapid.T) FlightCase {
+		var c FlightCase
+		n := rapid.IntRange(2, 3).Draw(t, "n")
+		for i := 0; i < n; i++ {
+			k := rapid.IntRange(0, 3).Draw(t, "nmsgs")
+			var ms []Msg
+			for j := 0; j < k; j++ {
+				ms = append(ms, Msg{K: rapid.SampledFrom([]string{"error", "success", "info", "k"}).Draw(t, "k"), V: fmt.Sprintf("text-%d-%d", i, j), Level: uint8(rapid.IntRange(0x21, 0x24).Draw(t, "lvl"))})
+			}
+			c.Reqs = append(c.Reqs, ms)
+			c.Input = append(c.Input, rapid.IntRange(0, 3).Draw(t, "input") == 0)
+		}
+		c.Picks = rapid.SliceOfN(rapid.IntRange(0, 2), 0, 40).Draw(t, "picks")
+		return c
+	}})
+
+func TestInFlight(t *testing.T) { propFlight.Run(t) }
